@@ -1,15 +1,20 @@
 ----------------------------- MODULE Trace_C10 -----------------------------
+(* C10 judge.  record [id, pos, expr (flat tokens of what the author wrote, tokenised by proc_macro2), verdict,
+                       convs: Seq([conv \in {"from","into","ie"}, out: flat tokens of that impl])] *)
 EXTENDS O2OTokens, TLC, Json, IOUtils
 Rec == ndJsonDeserialize(IOEnv.TRACE)
 VARIABLE l
-PathOf(ms) == [i \in 1..(2 * Len(ms)) |-> IF i % 2 = 1 THEN Dot ELSE Ident(ms[i \div 2])]
-\* r.convs: sequence of [conv, path (members on the source object), out (flat tokens of that impl), pos]
-ConvOk(r, c) == LET exp == Subst(r.expr, AtFor(c.conv), TildeFor(c.conv, PathOf(c.path))) IN
-                IF MatchAt(c.out, c.pos, exp) THEN TRUE ELSE Occurs(c.out, exp)
-Conforms(r) == r.verdict = "ok" /\ \A i \in DOMAIN r.convs : ConvOk(r, r.convs[i])
+ConvOk(r, c) == Occurs(c.out, Subst(r.expr, AtFor(c.conv), TildeFor(r.pos, c.conv)))
+Symptom(r) ==
+  IF r.verdict # "ok" THEN "expression_rejected"
+  ELSE IF Len(r.convs) = 0 THEN "no_impl_to_look_at"
+  ELSE IF \E i \in DOMAIN r.convs : ~ConvOk(r, r.convs[i]) THEN "substituted_expression_not_in_output"
+  ELSE "-"
 Init == l = 1
 Consume == /\ l <= Len(Rec)
-           /\ (IF Conforms(Rec[l]) THEN TRUE ELSE PrintT(<<"MISMATCH", l, Rec[l].id, Rec[l].src, Rec[l].verdict>>))
+           /\ (IF Symptom(Rec[l]) = "-" THEN TRUE
+               ELSE PrintT(<<"MISMATCH", ToJson([id |-> Rec[l].id, pos |-> Rec[l].pos, symptom |-> Symptom(Rec[l]),
+                         failing |-> {Rec[l].convs[i].conv : i \in {j \in DOMAIN Rec[l].convs : Rec[l].verdict = "ok" /\ ~ConvOk(Rec[l], Rec[l].convs[j])}}])>>))
            /\ l' = l + 1
 Spec == Init /\ [][Consume]_l
 Accepted == TLCGet("stats").diameter - 1 = Len(Rec)
